@@ -34,6 +34,12 @@ func init() {
 				Old: "\t\tUpdateListedAction,\n\t\tUpdateLatencyAction,\n", New: "\t\tUpdateLatencyAction,\n\t\tUpdateListedAction,\n", Expect: "canonical-table"},
 			{Name: "decode-keeps-stale-set", File: pkgPlayerinfo + "/upsert.go",
 				Old: "\tu.ActionSet = nil\n\tfor i, action := range UpsertActions {", New: "\tfor i, action := range UpsertActions {", Expect: "decode-rebuilds"},
+			{Name: "forge-short-reader-keeps-marker", File: "pkg/edition/java/proto/util/reader.go",
+				Old: "\t\tlow = low & 0x7FFF\n", New: "", Expect: "forge-short-layout:value-bits-15-22"},
+			{Name: "forge-short-writer-shift-16", File: "pkg/edition/java/proto/util/writer.go",
+				Old: "\thigh := (toWrite & 0x7F8000) >> 15", New: "\thigh := (toWrite & 0x7F8000) >> 16", Expect: "forge-short-layout:third-byte-bits"},
+			{Name: "forge-short-writer-flag-always", File: "pkg/edition/java/proto/util/writer.go",
+				Old: "\tif high != 0 {\n\t\tlow = low | 0x8000\n\t}", New: "\tlow = low | 0x8000", Expect: "forge-short-layout:flag-iff-third-byte"},
 			{Name: "forge-short-one-byte", File: "pkg/edition/java/proto/util/writer.go",
 				Old: "WriteUint16(wr, uint16(low))", New: "WriteInt8(wr, int8(low))", Expect: "extended-short"},
 			{Name: "forge-short-read-one-byte", File: "pkg/edition/java/proto/util/reader.go",
@@ -216,6 +222,7 @@ func runC07(c *Ctx) {
 
 	// (2) extended Forge short: both sides 2 bytes (shared with C03)
 	checkExtendedForgeShort(c, "extended-short")
+	checkForgeShortLayout(c, "forge-short-layout")
 }
 
 // checkExtendedForgeShort: the extended short's masks are 16-bit (low = v & 0x7FFF | 0x8000 on the
